@@ -481,7 +481,8 @@ func genC02(t *rapid.T) c02Case {
 		c := c02Case{Carrier: rapid.SampledFrom([]string{cHTTP, cHTTPMux, cHTTPPer}).Draw(t, "carrier"),
 			S: genScript(t, scriptGenOpts{MaxMsg: 300, MDKeys: 1, FewOps: true, NoEarly: true, PlainStatus: true})}
 		c.S.Final = ErrSpec{Kind: "nil"}
-		c.S.Chunked = false // the recorded reply's last byte is the body's last byte
+		c.S.Chunked = false    // the recorded reply's last byte is the body's last byte
+		c.S.PreSendHdr = false // the cut counts the bytes of the one scripted call
 		if c.S.Kind == kClientStream {
 			c.S.HOps = []HOp{{Op: "send", Msg: 0}}
 		}
